@@ -185,9 +185,13 @@ Inductive pcall :=          (* calls arriving at the outermost Collect (the harn
 | PEvent (cs : N)
 | PNewSpan (cs : N) (id : N)
 | PClose (id : N).                  (* try_close on the outermost collector answered true *)
+(** what a leaf reads by navigating on from the span its callback is about (or the event's span):
+    [nv_each]: for every span the scope yields, its .parent() and its .scope();
+    [nv_chain]: .parent() applied repeatedly up to the root;  [nv_pscope]: .parent().map(|p| p.scope()) ([] if none);
+    [nv_root]: scope().from_root() *)
+Record navs := Navs { nv_each : list (option N * list N); nv_chain : list N; nv_pscope : list N; nv_root : list N }.
 Inductive obs :=
-| ODeliver (layer : N) (w : what) (cur : option N) (scope : list N) (parent : option N)
-           (nav : list (option N * list N))   (* for every span the scope yields: its .parent() and its .scope() *)
+| ODeliver (layer : N) (w : what) (cur : option N) (scope : list N) (parent : option N) (nav : navs)
 | OFEval (k : N) (r : bool)                 (* Filtered #k evaluated its filter's `enabled` *)
 | OCall (p : pcall)
 | OResult (r : bool).                       (* value of an enabled! probe *)
@@ -253,13 +257,33 @@ Definition span_parent (st : state) (mask : N) (r : option N) : option N :=
   | None => None
   | Some id => match sp_get st id with Some d => parent_from (fuel_of st) st mask (sd_parent d) | None => None end
   end.
+(** A [SpanRef] is a span id together with the FilterId of the Context it came from; [SpanRef::parent] skips the
+    ancestors that filter disabled and hands the *same* filter on to the SpanRef it returns
+    ([Self { registry, filter: self.filter, data }]), so that climbing further stays inside the layer's own view. *)
+Definition spanref := (N * N)%type.
+Definition sr_parent (st : state) (r : spanref) : option spanref :=
+  match span_parent st (snd r) (Some (fst r)) with Some p => Some (p, snd r) | None => None end.
+Definition sr_scope (st : state) (r : spanref) : list N := scope_from (fuel_of st) st (snd r) (Some (fst r)).
+Fixpoint parent_chain (fuel : nat) (st : state) (r : spanref) : list N :=
+  match fuel with
+  | O => []
+  | S k => match sr_parent st r with Some p => fst p :: parent_chain k st p | None => [] end
+  end.
+Definition ref_of (mask : N) (r : option N) : option spanref := match r with Some id => Some (id, mask) | None => None end.
+
 (** what a recording leaf writes down inside a callback: ctx.lookup_current(), the scope of the event /
-    of the span the callback is about, and that span's parent() *)
+    of the span the callback is about, that span's parent(), and the navigation of [navs] *)
 Definition record (name : N) (st : state) (mask : N) (w : what) : obs :=
   let r := span_ref st mask w in
   let sc := scope_from (fuel_of st) st mask r in
   ODeliver name w (lookup_current st mask) sc (span_parent st mask r)
-           (map (fun id => (span_parent st mask (Some id), scope_from (fuel_of st) st mask (Some id))) sc).
+           (Navs (map (fun id => (span_parent st mask (Some id), scope_from (fuel_of st) st mask (Some id))) sc)
+                 (match ref_of mask r with Some x => parent_chain (fuel_of st) st x | None => [] end)
+                 (match ref_of mask r with
+                  | Some x => match sr_parent st x with Some p => sr_scope st p | None => [] end
+                  | None => []
+                  end)
+                 (rev sc)).
 
 (** * One pass over a layer tree.  [cm] is the FilterId of the Context handed down. *)
 Definition seq_all {A} (f : A -> N -> bool * N * list obs) : list A -> N -> bool * N * list obs :=
